@@ -148,7 +148,7 @@ fn c11_session_multi(env: &WorkerEnv, reqs: &[(String, String, usize)], baseline
     let mut init = Files::new();
     init.insert("a".into(), b"content of a".to_vec());
     init.insert("d/x".into(), b"dx".to_vec());
-    let sys = System { init: init.clone(), programs: vec![prog], external: vec![] };
+    let sys = System { init: init.clone(), programs: vec![prog], external: vec![], late: vec![] };
     // sentinels outside the hub: next to ROOT, in its parent's parent (scratch root) and in the server's cwd
     let base = env.sc.root.clone();
     let cwd = base.join("cwd");
@@ -271,7 +271,7 @@ pub fn run_c11(ctx: &Ctx) -> ! {
                 init.insert("d/x".into(), b"dx".to_vec());
                 let cwd = env.sc.root.join("cwd");
                 let _ = std::fs::create_dir_all(&cwd);
-                let bsys = System { init, programs: vec![probe_suffix()], external: vec![] };
+                let bsys = System { init, programs: vec![probe_suffix()], external: vec![], late: vec![] };
                 let b = run_schedule(&env, &bsys, &RunOpts { knobs: Knobs { shim_root: Some("/".into()), cwd: Some(cwd) }, prefix: &[], allow_kill: false, instant: None });
                 let baseline = (b.ops.iter().map(|o| o.reply.clone()).collect::<Vec<_>>(), b.final_tree.clone());
                 if baseline.0.len() != 3 || baseline.0.iter().any(Option::is_none) {
